@@ -7,7 +7,9 @@ time and are skipped).  OUT: {"results": [{"i", "viol", "drift"}], "machinery": 
 """
 from __future__ import annotations
 
+import importlib
 import json
+import os
 import sys
 
 
@@ -24,6 +26,15 @@ def main(argv):
     for i, case in enumerate(cases):
         prefix = f"h{i}_"
         sources = B.render(case, prefix, guarded=True)
+        for name, src in sources.items():
+            with open(os.path.join(directory, name + ".py"), "w") as fh:
+                fh.write(src)
+        try:  # the rendering itself must be importable by CPython: otherwise the harness is wrong, not Griffe
+            for name in sources:
+                importlib.import_module(name)
+        except Exception as exc:  # noqa: BLE001
+            machinery.append(f"case {i}: rendered modules do not import: {exc!r}")
+            continue
         try:
             coll = B.load_disk(griffe, sources, directory, force_inspection=True)
             real = B.real_view(case, coll, prefix)
